@@ -1,13 +1,13 @@
-(* C05 — refutation witnesses (defects of the unchanged code, replayed against the implementation by the harness),
-   the pickle round-trip lemma and the finite table lemma. *)
+(* C05 — the pickle round-trip lemma, concrete regression witnesses of the repaired defects (D7, D8, D55, D56: the histories
+   that used to refute the full statements now satisfy them) and the finite table lemma. *)
 From Coq Require Import List String Bool Arith PeanoNat.
 Import ListNotations.
 From TD Require Import Model.C05_Heap Model.C05_Lock Spec.C05_LockSpec
   Proofs.C05_HeapP Proofs.C05_LockP Proofs.C05_InvP Proofs.C05_StepP Proofs.C05_FrozenP Gen.C05_Tables.
 Open Scope string_scope.
 
-Lemma invariant_reachable : forall ff ops s' outs, Forall in_scope ops -> run ff init ops = Some (s', outs) -> Inv s'.
-Proof. intros ff ops s' outs SC H. eapply run_inv; [apply Inv_init|exact SC|exact H]. Qed.
+Lemma invariant_reachable : forall ff ops s' outs, run ff init ops = Some (s', outs) -> Inv s'.
+Proof. intros ff ops s' outs H. eapply run_inv; [apply Inv_init|exact H]. Qed.
 
 Lemma pickle_relocks : forall fuel s n s' nd,
   Inv s -> exists_live s n = true -> lookup (hp s) n = Some nd -> flg nd = FTrue ->
@@ -15,71 +15,37 @@ Lemma pickle_relocks : forall fuel s n s' nd,
   Inv s' /\ flag_true (hp s') (pred (nxt s')) = true /\ kept_all (hp s) (hp s') /\ dead s' = dead s.
 Proof.
   intros fuel s n s' nd HI X E F H.
-  assert (HI' : Inv s') by (eapply step_inv; [exact HI| |exact H]; exact I).
+  assert (HI' : Inv s') by (eapply step_inv; [exact HI|exact H]).
   cbn [step] in H. rewrite X in H. cbn [negb] in H.
   destruct (pcopy fuel fuel s [] n) as [[[s1 m1] c1]|] eqn:P; [|discriminate]. inversion H. subst s1.
   destruct (pcopy_top_flag _ _ _ _ _ _ _ _ HI P E F) as [-> Fc].
   destruct (pcopy_kept _ _ _ _ _ _ _ _ P) as [K D]. auto.
 Qed.
 
-Definition locked_frozen_full_statement : Prop := forall fuel s o s' out r,
-  Inv s -> in_scope o -> step fuel s o = Some (s', out) -> (forall n k, o <> OMakeMemmap n k) -> (forall n, o <> OMemmap n) ->
-  flag_true (hp s) r = true -> live s r = true -> no_mm (hp s) r -> tree_unchanged (hp s) (hp s') r.
+Definition outcome_of (r : option (st * outcome)) : option outcome := option_map snd r.
+Definition state_after (s : st) (ops : list op) : st := match run auto_fuel s ops with Some (s', _) => s' | None => s end.
 
-Definition d8_hist : list op := [ONewTd; OSet 0 "a" VLeaf; OLock 0].
-Definition d8_state : st := match run auto_fuel init d8_hist with Some (s, _) => s | None => init end.
+(* D8 (repaired): exclude(inplace=True) on a locked node raises and changes nothing *)
+Definition d8_state : st := state_after init [ONewTd; OSet 0 "a" VLeaf; OLock 0].
+Lemma regression_D8 : step 5 d8_state (OExclude 0 ["a"]) = Some (d8_state, Raised ELock).
+Proof. vm_compute. reflexivity. Qed.
 
-Lemma locked_frozen_refuted_D8 : fixed_D8 = false -> ~ locked_frozen_full_statement.
-Proof.
-  intros Hsw; first [discriminate Hsw|idtac]. intros Hfull.
-  assert (R : run auto_fuel init d8_hist = Some (d8_state, [Done; Done; Done])) by (vm_compute; reflexivity).
-  assert (HI : Inv d8_state).
-  { eapply invariant_reachable; [|exact R]. repeat constructor. }
-  assert (St : step 5 d8_state (OExclude 0 ["a"]) = Some (set_node_ents d8_state 0 [], Done)) by (vm_compute; reflexivity).
-  specialize (Hfull 5 d8_state (OExclude 0 ["a"]) _ _ 0 HI I St).
-  assert (TU : tree_unchanged (hp d8_state) (hp (set_node_ents d8_state 0 [])) 0).
-  { apply Hfull; try (intros; discriminate); try (vm_compute; reflexivity).
-    intros x nd Rx E. assert (x = 0).
-    { inversion Rx as [|a c m Hc _]; subst; [reflexivity|]. vm_compute in Hc. destruct Hc. }
-    subst x. vm_compute in E. inversion E. reflexivity. }
-  specialize (TU 0 (Reach_refl _ 0)). vm_compute in TU. destruct TU as [_ TU]. discriminate.
-Qed.
+(* D7 (repaired): after memmap_ a nested node cannot be unlocked on its own *)
+Definition d7_state : st := state_after init [ONewTd; OSet 0 "n" VNewTd; OMemmap 0].
+Lemma regression_D7 : outcome_of (step 6 d7_state (OUnlock 1)) = Some (Raised ELock) /\ flag_true (hp d7_state) 1 = true.
+Proof. vm_compute. split; reflexivity. Qed.
 
-Definition member_cannot_unlock_full_statement : Prop := forall fuel s q n s' out,
-  Inv s -> child (hp s) q n -> flag_true (hp s) q = true -> live s q = true ->
-  step fuel s (OUnlock n) = Some (s', out) -> out = Raised ELock.
+(* D55 (repaired): lock_() on a lazy stack whose members were locked first registers the stack as their lock parent *)
+Definition d55_state : st := state_after init [ONewTd; ONewTd; OLock 0; OLock 1; ONewLazy [0; 1]; OLock 2].
+Lemma regression_D55 : outcome_of (step 9 d55_state (OUnlock 0)) = Some (Raised ELock) /\ flag_true (hp d55_state) 2 = true.
+Proof. vm_compute. split; reflexivity. Qed.
 
-Definition d7_hist : list op := [ONewTd; OSet 0 "n" VNewTd; OMemmap 0].
-Definition d7_state : st := match run auto_fuel init d7_hist with Some (s, _) => s | None => init end.
+(* D56 (repaired): a lazy stack without members inside a locked tree records its parents: unlock_ and append raise *)
+Definition d56_state : st := state_after init [ONewTd; ONewLazy []; OSet 0 "L" (VNode 1); OLock 0; ONewTd].
+Lemma regression_D56 : outcome_of (step 9 d56_state (OUnlock 1)) = Some (Raised ELock) /\ outcome_of (step 9 d56_state (OAppend 1 2)) = Some (Raised ELock).
+Proof. vm_compute. split; reflexivity. Qed.
 
-Lemma member_cannot_unlock_refuted_D7 : fixed_D7 = false -> ~ member_cannot_unlock_full_statement.
-Proof.
-  intros Hsw; first [discriminate Hsw|idtac]. intros Hfull.
-  assert (R : run auto_fuel init d7_hist = Some (d7_state, [Done; Done; Done])) by (vm_compute; reflexivity).
-  assert (HI : Inv d7_state) by (eapply invariant_reachable; [|exact R]; repeat constructor).
-  assert (St : exists s', step 6 d7_state (OUnlock 1) = Some (s', Done)) by (vm_compute; eexists; reflexivity).
-  destruct St as [s' St].
-  assert (Done = Raised ELock); [|discriminate].
-  apply (Hfull 6 d7_state 0 1 s' Done HI); try (vm_compute; reflexivity); [|exact St].
-  vm_compute. left. reflexivity.
-Qed.
-
-Definition d55_hist : list op := [ONewTd; ONewTd; OLock 0; OLock 1; ONewLazy [0; 1]; OLock 2].
-Definition d55_state : st := match run auto_fuel init d55_hist with Some (s, _) => s | None => init end.
-Definition d55_after : st := match step 9 d55_state (OUnlock 0) with Some (s, _) => s | None => init end.
-Lemma lazy_lock_noop_refuted_D55 :
-  option_map snd (run auto_fuel init d55_hist) = Some [Done; Done; Done; Done; Done; Done] /\
-  is_locked 9 (hp d55_state) 2 = Some true /\ child (hp d55_state) 2 0 /\
-  option_map snd (step 9 d55_state (OUnlock 0)) = Some Done /\ is_locked 9 (hp d55_after) 2 = Some false.
-Proof. vm_compute. repeat split. left. reflexivity. Qed.
-
-Definition d56_hist : list op := [ONewTd; ONewLazy []; OSet 0 "L" (VNode 1); OLock 0; OUnlock 1; ONewTd; OAppend 1 2].
-Definition d56_state : st := match run auto_fuel init d56_hist with Some (s, _) => s | None => init end.
-Lemma hollow_lazy_refuted_D56 :
-  option_map snd (run auto_fuel init d56_hist) = Some [Done; Done; Done; Done; Done; Done; Done] /\
-  flag_true (hp d56_state) 0 = true /\ child (hp d56_state) 0 1 /\ children (hp d56_state) 1 = [2].
-Proof. vm_compute. repeat split. left. reflexivity. Qed.
-
+(* ---- guard table -------------------------------------------------------------------------------------------------------- *)
 Definition key3 := (string * string * string)%type.
 Definition key3_eqb (a b : key3) : bool :=
   let '(a1, a2, a3) := a in let '(b1, b2, b3) := b in String.eqb a1 b1 && String.eqb a2 b2 && String.eqb a3 b3.
@@ -92,11 +58,8 @@ Definition deliberate : list key3 :=
    ("_lazy.py", "LazyStackedTensorDict", "__init__"); ("_lazy.py", "LazyStackedTensorDict", "_new_lazy_unsafe");
    ("nn/params.py", "TensorDictParams", "__init__"); ("nn/params.py", "TensorDictParams", "_new_unsafe");
    ("tensorclass.py", "tensorclass", "_memmap_"); ("tensorclass.py", "tensorclass", "_setstate")].
-(* recorded defects (findings.d/C05.json): D8, D8 (lazy), D51, D57, D52 *)
-Definition known_unguarded : list key3 :=
-  [("_td.py", "TensorDict", "_exclude"); ("_lazy.py", "LazyStackedTensorDict", "_exclude");
-   ("_lazy.py", "LazyStackedTensorDict", "expand"); ("_lazy.py", "LazyStackedTensorDict", "__setitem__");
-   ("nn/params.py", "TensorDictParams", "_apply")].
+(* recorded finding (findings.d/C05.json): D52, nn.Module._apply replaces the parameters of a TensorDictParams by design *)
+Definition known_unguarded : list key3 := [("nn/params.py", "TensorDictParams", "_apply")].
 
 Definition row_ok (r : string * string * string * guard) : bool :=
   let '(f, c, m, g) := r in
@@ -110,8 +73,10 @@ Proof. vm_compute. reflexivity. Qed.
 
 Lemma guard_table_core :
   forallb (fun k => existsb (fun r => let '(f, c, m, g) := r in key3_eqb (f, c, m) k && match g with GNone => false | _ => true end) storage_writers)
-          [("_td.py", "TensorDict", "_set_str"); ("_td.py", "TensorDict", "_select"); ("_td.py", "TensorDict", "del_");
-           ("_td.py", "TensorDict", "popitem"); ("_lazy.py", "LazyStackedTensorDict", "insert")] = true
+          [("_td.py", "TensorDict", "_set_str"); ("_td.py", "TensorDict", "_select"); ("_td.py", "TensorDict", "_exclude");
+           ("_td.py", "TensorDict", "del_"); ("_td.py", "TensorDict", "popitem");
+           ("_lazy.py", "LazyStackedTensorDict", "insert"); ("_lazy.py", "LazyStackedTensorDict", "_exclude");
+           ("_lazy.py", "LazyStackedTensorDict", "expand")] = true
   /\ forallb (fun k => mem3 k lock_blocked_methods)
           [("_td.py", "TensorDict", "del_"); ("_td.py", "TensorDict", "popitem"); ("_td.py", "TensorDict", "rename_key_");
            ("base.py", "TensorDictBase", "clear"); ("base.py", "TensorDictBase", "update"); ("base.py", "TensorDictBase", "create_nested");
